@@ -648,6 +648,15 @@ func (b *trackedBlock) Release() {
 		b.a.violate("Release called twice on the same block (region offset %v)", b.regionOffset())
 	}
 	b.released = true
+	if b.region != nil && b.a.LastWrittenState != nil {
+		if st := b.a.LastWrittenState(); st != nil {
+			for _, bs := range st.Blocks {
+				if bs.BlockLocation.OffsetBytes == b.region.Offset {
+					b.a.violate("region at offset %d released to the allocator while the last durably written state file still lists it", b.region.Offset)
+				}
+			}
+		}
+	}
 	b.a.Releases++
 	b.a.ReleaseTimes = append(b.a.ReleaseTimes, vsched.Now())
 	b.Block.Release()
